@@ -1,0 +1,218 @@
+//go:build verif
+
+package cryptobyte
+
+// Contracts for govc (/verif). Comments only.
+
+// ---- String: slice-header bookkeeping ----
+// hdr: the two slices are the same view; advanced: s1 is s0 with its first n
+// bytes consumed; prefix: v is the first n bytes of s0 (same backing object).
+//@ pred hdr(x, y) = ref(x) == ref(y) && off(x) == off(y) && len(x) == len(y) && cap(x) == cap(y)
+//@ pred advanced(s1, s0, n) = ref(s1) == ref(s0) && off(s1) == off(s0) + n && len(s1) == len(s0) - n && cap(s1) == cap(s0) - n
+//@ pred prefix(v, s0, n) = ref(v) == ref(s0) && off(v) == off(s0) && len(v) == n && cap(v) == cap(s0)
+// be(v, n): big-endian value of the first n <= 4 bytes of v
+//@ pred be(v, n) = ite(n <= 0, 0, ite(n == 1, v[0], ite(n == 2, v[0]*256 + v[1],
+//@ |   ite(n == 3, v[0]*65536 + v[1]*256 + v[2], v[0]*16777216 + v[1]*65536 + v[2]*256 + v[3]))))
+
+//@ func (*String).read
+//@ props C22 C23
+//@ modifies *s
+//@ ensures implies(n < 0 || len(old(*s)) < n, result == nil && hdr(*s, old(*s)))
+//@ ensures implies(0 <= n && n <= len(old(*s)), prefix(result, old(*s), n) && advanced(*s, old(*s), n))
+//@ canary ensures len(*s) == len(old(*s))
+
+//@ func (*String).Skip
+//@ props C22 C23
+//@ modifies *s
+//@ ensures implies(n < 0 || len(old(*s)) < n, !result && hdr(*s, old(*s)))
+//@ ensures implies(0 <= n && n <= len(old(*s)), advanced(*s, old(*s), n))
+//@ ensures implies(0 <= n && n <= len(old(*s)) && ref(old(*s)) != 0, result)
+
+//@ func (*String).ReadBytes
+//@ props C22 C23
+//@ nonnil out
+//@ modifies *s
+//@ modifies *out
+//@ ensures implies(n < 0 || len(old(*s)) < n, !result && hdr(*s, old(*s)) && hdr(*out, old(*out)))
+//@ ensures implies(0 <= n && n <= len(old(*s)) && ref(old(*s)) != 0, result)
+//@ ensures implies(result, prefix(*out, old(*s), n) && advanced(*s, old(*s), n))
+//@ ensures implies(!result, hdr(*out, old(*out)))
+
+//@ func (*String).ReadUint8
+//@ props C22
+//@ nonnil out
+//@ modifies *s
+//@ modifies *out
+//@ ensures result == (len(old(*s)) >= 1)
+//@ ensures implies(result, *out == old(*s)[0] && advanced(*s, old(*s), 1))
+//@ ensures implies(!result, *out == old(*out) && hdr(*s, old(*s)))
+
+//@ func (*String).ReadUint16
+//@ props C22
+//@ nonnil out
+//@ modifies *s
+//@ modifies *out
+//@ ensures result == (len(old(*s)) >= 2)
+//@ ensures implies(result, *out == old(*s)[0]*256 + old(*s)[1] && advanced(*s, old(*s), 2))
+//@ ensures implies(!result, *out == old(*out) && hdr(*s, old(*s)))
+
+//@ func (*String).ReadUint24
+//@ props C22
+//@ nonnil out
+//@ modifies *s
+//@ modifies *out
+//@ ensures result == (len(old(*s)) >= 3)
+//@ ensures implies(result, *out == old(*s)[0]*65536 + old(*s)[1]*256 + old(*s)[2] && advanced(*s, old(*s), 3))
+//@ ensures implies(!result, *out == old(*out) && hdr(*s, old(*s)))
+
+//@ func (*String).ReadUint32
+//@ props C22
+//@ nonnil out
+//@ modifies *s
+//@ modifies *out
+//@ ensures result == (len(old(*s)) >= 4)
+//@ ensures implies(result, *out == be(old(*s), 4) && advanced(*s, old(*s), 4))
+//@ ensures implies(!result, *out == old(*out) && hdr(*s, old(*s)))
+
+//@ func (*String).ReadUint64
+//@ props C22
+//@ nonnil out
+//@ modifies *s
+//@ modifies *out
+//@ ensures result == (len(old(*s)) >= 8)
+//@ ensures implies(result, *out == be(old(*s), 4)*4294967296 + be(old(*s)[4:], 4) && advanced(*s, old(*s), 8))
+//@ ensures implies(!result, *out == old(*out) && hdr(*s, old(*s)))
+
+//@ func (*String).readUnsigned
+//@ props C22 C23
+//@ nonnil out
+//@ requires 0 <= length && length <= 4
+//@ modifies *s
+//@ modifies *out
+//@ ensures implies(len(old(*s)) < length, !result && hdr(*s, old(*s)) && *out == old(*out))
+//@ ensures implies(result, *out == be(old(*s), length) && advanced(*s, old(*s), length))
+//@ ensures implies(len(old(*s)) >= length && (length > 0 || ref(old(*s)) != 0), result)
+//@ ensures implies(!result, hdr(*s, old(*s)) && *out == old(*out))
+//@ loop 1 invariant 0 <= i && i <= length && result == be(v, i)
+
+//@ func (*String).readLengthPrefixed
+//@ props C22
+//@ nonnil outChild
+//@ requires 1 <= lenLen && lenLen <= 3
+//@ requires s != outChild
+//@ modifies *s
+//@ modifies *outChild
+//@ ensures result == (len(old(*s)) >= lenLen && len(old(*s)) >= lenLen + be(old(*s), lenLen))
+//@ ensures implies(result, ref(*outChild) == ref(old(*s)) && off(*outChild) == off(old(*s)) + lenLen && len(*outChild) == be(old(*s), lenLen))
+//@ ensures implies(result, advanced(*s, old(*s), lenLen + be(old(*s), lenLen)))
+//@ ensures implies(!result, hdr(*outChild, old(*outChild)))
+//@ loop 1 invariant -1 <= rangeindex && rangeindex < lenLen && length == be(lenBytes, rangeindex+1)
+
+// ---- ASN.1 DER readers (C23) ----
+// A DER header as this API accepts it: low-tag-number form; short-form
+// length, or long form with 1..4 length octets whose value is >= 128, has no
+// leading zero octet, and with header+content below 2^32.
+//@ pred lenlen(s) = s[1] % 128
+//@ pred derlen(s) = be(s[2:], lenlen(s))
+//@ pred hdrlen(s) = ite(s[1] < 128, 2, 2 + lenlen(s))
+//@ pred total(s) = ite(s[1] < 128, s[1] + 2, 2 + lenlen(s) + derlen(s))
+//@ pred validhdr(s) = len(s) >= 2 && s[0] % 32 != 31 && (s[1] < 128 ||
+//@ |   (1 <= lenlen(s) && lenlen(s) <= 4 && len(s) >= 2 + lenlen(s) && derlen(s) >= 128 &&
+//@ |    derlen(s) >= spec.pow2f(8*(lenlen(s)-1)) && 2 + lenlen(s) + derlen(s) <= 4294967295))
+//@ pred valid(s) = validhdr(s) && len(s) >= total(s)
+// view(o, s, a, b): o is the sub-slice s[a:b]
+//@ pred view(o, s, a, b) = ref(o) == ref(s) && off(o) == off(s) + a && len(o) == b - a
+
+//@ func (*String).readASN1
+//@ props C23
+//@ nonnil out
+//@ modifies *s
+//@ modifies *out
+//@ modifies *outTag
+//@ ensures result == valid(old(*s))
+//@ ensures implies(result && skipHeader, view(*out, old(*s), hdrlen(old(*s)), total(old(*s))))
+//@ ensures implies(result && !skipHeader, view(*out, old(*s), 0, total(old(*s))))
+//@ ensures implies(result && s != out, advanced(*s, old(*s), total(old(*s))))
+//@ ensures implies(result && outTag != nil, *outTag == old(*s)[0])
+//@ ensures implies(!result, hdr(*s, old(*s)))
+//@ ensures implies(!result && s != out, hdr(*out, old(*out)))
+//@ canary ensures implies(result, len(*out) == len(old(*s)) - 2)
+
+//@ func (*String).ReadAnyASN1
+//@ props C23
+//@ nonnil out
+//@ modifies *s
+//@ modifies *out
+//@ modifies *outTag
+//@ ensures result == valid(old(*s))
+//@ ensures implies(result, view(*out, old(*s), hdrlen(old(*s)), total(old(*s))))
+//@ ensures implies(result && s != out, advanced(*s, old(*s), total(old(*s))))
+//@ ensures implies(result && outTag != nil, *outTag == old(*s)[0])
+//@ ensures implies(!result, hdr(*s, old(*s)))
+
+//@ func (*String).ReadAnyASN1Element
+//@ props C23
+//@ nonnil out
+//@ modifies *s
+//@ modifies *out
+//@ modifies *outTag
+//@ ensures result == valid(old(*s))
+//@ ensures implies(result, view(*out, old(*s), 0, total(old(*s))))
+//@ ensures implies(result && s != out, advanced(*s, old(*s), total(old(*s))))
+//@ ensures implies(result && outTag != nil, *outTag == old(*s)[0])
+//@ ensures implies(!result, hdr(*s, old(*s)))
+
+//@ func (*String).ReadASN1
+//@ props C23
+//@ nonnil out
+//@ modifies *s
+//@ modifies *out
+//@ ensures result == (valid(old(*s)) && old(*s)[0] == tag)
+//@ ensures implies(result, view(*out, old(*s), hdrlen(old(*s)), total(old(*s))))
+//@ ensures implies(result && s != out, advanced(*s, old(*s), total(old(*s))))
+//@ ensures implies(!valid(old(*s)), hdr(*s, old(*s)))
+
+//@ func (*String).ReadASN1Element
+//@ props C23
+//@ nonnil out
+//@ modifies *s
+//@ modifies *out
+//@ ensures result == (valid(old(*s)) && old(*s)[0] == tag)
+//@ ensures implies(result, view(*out, old(*s), 0, total(old(*s))))
+//@ ensures implies(result && s != out, advanced(*s, old(*s), total(old(*s))))
+
+//@ func (String).PeekASN1Tag
+//@ props C23
+//@ pure
+//@ ensures result == (len(s) > 0 && s[0] == tag)
+
+//@ func (*String).SkipASN1
+//@ props C23
+//@ modifies *s
+//@ ensures result == (valid(old(*s)) && old(*s)[0] == tag)
+//@ ensures implies(result, advanced(*s, old(*s), total(old(*s))))
+
+//@ func (*String).ReadOptionalASN1
+//@ props C23
+//@ nonnil out
+//@ requires s != out
+//@ modifies *s
+//@ modifies *out
+//@ modifies *outPresent
+//@ ensures implies(len(old(*s)) == 0 || old(*s)[0] != tag, result && hdr(*s, old(*s)))
+//@ ensures implies(len(old(*s)) > 0 && old(*s)[0] == tag, result == valid(old(*s)))
+//@ ensures implies(outPresent != nil, *outPresent == (len(old(*s)) > 0 && old(*s)[0] == tag))
+//@ ensures implies(result && len(old(*s)) > 0 && old(*s)[0] == tag, view(*out, old(*s), hdrlen(old(*s)), total(old(*s))) && advanced(*s, old(*s), total(old(*s))))
+
+//@ func (*String).ReadASN1Boolean
+//@ props C23
+//@ nonnil out
+//@ modifies *s
+//@ modifies *out
+//@ ensures result == (valid(old(*s)) && old(*s)[0] == 1 && old(*s)[1] == 1 && (old(*s)[2] == 0 || old(*s)[2] == 255))
+//@ ensures implies(result, *out == (old(*s)[2] == 255) && advanced(*s, old(*s), 3))
+
+//@ func checkASN1Integer
+//@ props C23
+//@ pure
+//@ ensures result == (len(bytes) >= 1 && (len(bytes) == 1 || !((bytes[0] == 0 && bytes[1] < 128) || (bytes[0] == 255 && bytes[1] >= 128))))
